@@ -975,6 +975,24 @@ def evaluate(case, native):
             return True, (f'self-organising population with {native["size"]} individuals (configured selection size {case["selection_size"]}) selects {native["selected"]} individuals after a '
                           f'generation tick with speed {case["speed"]} (phase now {native["phase"]}): nothing is selected from a non-empty population')
         return False, 'selection is non-empty'
+    if kind == 'dbscan':
+        n, mp, nb, clusters = case['points'], case['min_points'], case['neighbours'], native['clusters']
+        core = [len(nb[i]) >= mp for i in range(n)]
+        flat = [p for c in clusters for p in c]
+        if len(flat) != len(set(flat)) or any(not c for c in clusters):
+            return True, f'clusters {clusters} are not pairwise disjoint / contain duplicates (neighbourhoods {nb}, min_points {mp})'
+        for c in clusters:
+            if not core[c[0]]:
+                return True, f'cluster {c} is grown from point {c[0]}, which has {len(nb[c[0]])} neighbours < min_points {mp} (neighbourhoods {nb})'
+            reach = {c[0]}
+            for _ in range(n):
+                reach |= {p for q in list(reach) if core[q] for p in nb[q]}
+            if not set(c) <= reach:
+                return True, f'cluster {c} contains {sorted(set(c) - reach)}, not density-reachable from its first point (neighbourhoods {nb}, min_points {mp})'
+        left = [i for i in range(n) if core[i] and i not in flat]
+        if left:
+            return True, f'core point(s) {left} are in no cluster (clusters {clusters}, neighbourhoods {nb}, min_points {mp})'
+        return False, 'clusters satisfy the DBSCAN contract'
     if kind == 'statistic_sum':
         for k_ in ('cost', 'distance', 'duration', 'driving', 'serving', 'waiting', 'break_time', 'commuting', 'parking'):
             want = case['a'][k_] + case['b'][k_]
